@@ -417,5 +417,50 @@ def rule_u11(repo):
     return res
 
 
+def rule_u12(repo):
+    """`reach[k]` is what was reachable from k *when k was bound*; the variables in it may have been bound since.  The set the occurs
+    check looks into (`k in <set>`) therefore has to be closed under `reach` first: a loop in `union` that keeps adding `reach[j]`
+    for the j already in the set - or, the eager alternative, the sets of the variables that reach a member are extended as well
+    (an update of `reach[j]` under a test of `reach[j]`).  Without either, a cycle through a variable bound later
+    (x y, y z, z x) is not seen and the final expansion of the types does not end."""
+    res = RuleResult('C08.U12', 'the set the occurs check looks into is closed under the recorded reachability', floor=1)
+    f = repo.func(INFER, 'type_infer.<locals>.union')
+    cfg = cfg_of(f.node)
+    tests = []
+    for n in cfg.nodes:
+        if n.ast is None:
+            continue
+        for h in cfg.headers(n):
+            for x in ast.walk(h):
+                cp = compare_parts(x) if isinstance(x, ast.Compare) else None
+                if cp and cp[0] in (ast.In, ast.NotIn) and isinstance(cp[2], ast.Name) and any(
+                        isinstance(r, ast.Raise) for b in ast.walk(f.node) if isinstance(b, ast.If) and any(y is x for y in ast.walk(b.test)) for r in ast.walk(b)):
+                    tests.append((n, cp[2].id, x))
+    need(tests, 'union: no occurs check (`k in <set>` followed by a failure) found')
+
+    def closing_loops(setname):
+        out = []
+        for a in f.node.body:        # a loop every activation runs through
+            if not isinstance(a, (ast.While, ast.For)):
+                continue
+            grows = any(isinstance(c, ast.Call) and call_attr(c) in ('add', 'update') and is_name(c.func.value, setname) for c in ast.walk(a))
+            reads = any(isinstance(sub, ast.Subscript) and is_name(sub.value, 'reach') for sub in ast.walk(a))
+            feeds_back = isinstance(a, ast.While) or any(isinstance(c, ast.Call) and call_attr(c) in ('append', 'extend', 'add') and
+                                                          isinstance(c.func.value, ast.Name) and any(is_name(x, c.func.value.id) for x in ast.walk(a.iter)) for c in ast.walk(a))
+            if grows and reads and feeds_back:
+                out.append(a)
+        return out
+    eager = [c for c in ast.walk(f.node) if isinstance(c, ast.If) and any(isinstance(sub, ast.Subscript) and is_name(sub.value, 'reach') for sub in ast.walk(c.test)) and
+             any(isinstance(u, ast.Call) and call_attr(u) == 'update' and isinstance(u.func.value, ast.Subscript) and is_name(u.func.value.value, 'reach') for u in ast.walk(c))]
+    for i, (n, setname, x) in enumerate(tests):
+        loops = closing_loops(setname)
+        ok = bool(eager) or any(l.lineno < x.lineno for l in loops)
+        res.add('%s :: type_infer.union :: closed-before-occurs-check(%s)#%d' % (INFER, setname, i + 1), ok,
+                '`%s` is closed under reach before line %d looks into it' % (setname, x.lineno) if ok else
+                'line %d looks for the member in `%s`, which holds what was reachable when each variable was bound and is not closed under the bindings made '
+                'since: the cycle of x y, y z, z x goes unnoticed and the expansion of the types does not end' % (x.lineno, setname), '%s:%d' % (INFER, x.lineno))
+    return res
+
+
 def rules(repo):
-    return [rule_u1(repo), rule_u2(repo), rule_u3(repo), rule_u4(repo), rule_u5(repo), rule_u6(repo), rule_u7(repo), rule_u8(repo), rule_u9(repo), rule_u10(repo), rule_u11(repo)]
+    return [rule_u1(repo), rule_u2(repo), rule_u3(repo), rule_u4(repo), rule_u5(repo), rule_u6(repo), rule_u7(repo), rule_u8(repo), rule_u9(repo), rule_u10(repo), rule_u11(repo), rule_u12(repo)]
